@@ -1,7 +1,7 @@
 """C09 — client: on connection failure everything pending fails with the cause (structural clauses)."""
 import re
 
-from .common import (fkey, where, short, arg_is_local, follow_value, block_line, terminal_field, awaited_value_local, CORE)
+from .common import (sub_is_guarded, fkey, where, short, arg_is_local, follow_value, block_line, terminal_field, awaited_value_local, CORE)
 from ..facts import op_place, op_const, AnchorLost, is_test_body
 from .. import flow
 
@@ -142,6 +142,10 @@ def r2_no_unchecked_arith_on_peer_numbers(ctx):
                 if st["sp"][2].startswith("m:"):
                     continue
                 n += 1
+                # a subtraction under an explicit `a >= b` test cannot underflow
+                if st["rv"]["op"].startswith("Sub") and sub_is_guarded(b, bi, st["rv"]):
+                    R.ok("C09.R2", "%s:arith@%s:guarded" % (fkey(b), st["rv"]["op"]), "subtraction protected by an explicit comparison", "%s:%d" % (b.file, st["sp"][0]))
+                    continue
                 tainted = []
                 for o in (st["rv"]["a"], st["rv"]["b"]):
                     for l in tr.origins(b, o):
